@@ -254,6 +254,85 @@ fn config_equivalence() -> (u64, Vec<(String, String, String)>) {
     (n, bad)
 }
 
+/// A RunnerConfig is a plain value with public fields: after a first run every field may be
+/// assigned anew (on the value itself or on a clone) and the next run must be the run of what the
+/// fields say then.
+fn reuse_checks(cfgs: &[MachineConfig]) -> (u64, Vec<(String, String, String)>) {
+    let mut n = 0u64;
+    let mut bad = vec![];
+    for p1 in 0..PROGS.len() {
+        for p2 in 0..PROGS.len() {
+            for via_clone in [false, true] {
+                n += 1;
+                let label = format!("reuse first={} then={} clone={}", PROGS[p1].0, PROGS[p2].0, via_clone);
+                let r = mc::catch(|| {
+                    let mut out = vec![];
+                    let mut config = RunnerConfigBuilder::default().with_program(PROGS[p1].1).with_max_cycles(50).with_machine_config(cfgs[1].clone()).with_interrupts(vec![20usize]).with_resets(vec![]).build().expect("config");
+                    let _ = config.run().expect("parses");
+                    let mut second = if via_clone { config.clone() } else { config.clone() };
+                    let target: &mut emulator_2a_lib::runner::RunnerConfig = if via_clone { &mut second } else { &mut config };
+                    // every field assigned anew, one after the other, a run after each assignment
+                    let (mut prog, mut budget, mut mc_, mut ints, mut resets) = (PROGS[p1].1, 50usize, cfgs[1].clone(), vec![20usize], vec![]);
+                    for step in 0..5 {
+                        match step {
+                            0 => {
+                                prog = PROGS[p2].1;
+                                target.program = prog;
+                            }
+                            1 => {
+                                budget = 37;
+                                target.max_cycles = budget;
+                            }
+                            2 => {
+                                mc_ = cfgs[2].clone();
+                                target.machine_config = mc_.clone();
+                            }
+                            3 => {
+                                ints = vec![3, 30];
+                                target.interrupts = ints.clone();
+                            }
+                            _ => {
+                                resets = vec![10];
+                                target.resets = resets.clone();
+                            }
+                        }
+                        let res = target.run().expect("parses");
+                        let (em, ec) = ref_run(prog, &mc_, budget, &ints, &resets);
+                        if res.machine != em || res.emulated_cycles != ec {
+                            out.push(format!("after assigning field #{} (0 program, 1 max_cycles, 2 machine_config, 3 interrupts, 4 resets) the run reports {} cycles / FE,FF {:#04x},{:#04x}; stepping what the fields say gives {} cycles / {:#04x},{:#04x}", step, res.emulated_cycles, res.machine.bus().output_fe(), res.machine.bus().output_ff(), ec, em.bus().output_fe(), em.bus().output_ff()));
+                            break;
+                        }
+                    }
+                    out
+                });
+                match r {
+                    Ok(out) => {
+                        for w in out {
+                            bad.push(("reuse/run-ignores-assigned-field".to_string(), format!("[{}] {}", label, w), label.replace(' ', "_")));
+                        }
+                    }
+                    Err(pi) => bad.push((format!("panic/{}", pi.file()), format!("[{}] panic at {}: {}", label, pi.site(), pi.msg), label.replace(' ', "_"))),
+                }
+            }
+        }
+    }
+    // a program that does not parse must be reported, also on a configuration that ran before
+    n += 1;
+    let r = mc::catch(|| {
+        let mut config = RunnerConfigBuilder::default().with_program(PROGS[0].1).with_max_cycles(10).build().expect("config");
+        let _ = config.run();
+        config.program = "#! mrasm\n FROB R0\n";
+        config.run().is_err()
+    });
+    match r {
+        Ok(true) => {}
+        Ok(false) => bad.push(("reuse/run-ignores-assigned-field".to_string(), "after assigning a program that does not parse, run() still returns Ok".to_string(), "reuse_unparsable".to_string())),
+        Err(pi) => bad.push((format!("panic/{}", pi.file()), format!("panic at {}: {}", pi.site(), pi.msg), "reuse_unparsable".to_string())),
+    }
+    bad.truncate(6);
+    (n, bad)
+}
+
 /// RunExpectations::verify over all subsets x match/mismatch.
 fn expectations() -> (u64, Vec<(String, String, String)>) {
     let mut n = 0;
@@ -519,6 +598,17 @@ fn invocations(dir: &std::path::Path) -> Vec<Inv> {
             }
         }
     }
+    // full verbosity: every log line of the library is evaluated and written; results and exit status
+    // must not change
+    for (p, f) in &files {
+        for flags in [vec!["-vvvv"], vec!["-v", "-v", "-v", "-v", "-v"], vec!["-vv"]] {
+            let mut inv = mk(format!("verbose {:?} {}", flags, PROGS[*p].0), *p, f, 45, MachineConfig::default(), vec![], vec![7], vec![30], None);
+            let mut a: Vec<String> = flags.iter().map(|s| s.to_string()).collect();
+            a.extend(inv.args.drain(..));
+            inv.args = a;
+            v.push(inv);
+        }
+    }
     // every budget 0..=40 on every program
     for (p, f) in &files {
         for n in 0..=40usize {
@@ -758,6 +848,15 @@ pub fn run() {
             x.1.push((l, w));
         }
     }
+    let (nreuse, rbad) = reuse_checks(&cfgs);
+    for (k, w, l) in rbad {
+        let x = bad.entry(k).or_default();
+        x.0 += 1;
+        if x.1.len() < 3 {
+            x.1.push((l, w));
+        }
+    }
+    ctx.set("reuse_sequences", nreuse);
     let (ncfg, cbad) = config_equivalence();
     for (k, w, l) in cbad {
         let x = bad.entry(k).or_default();
@@ -776,7 +875,7 @@ pub fn run() {
             let _ = std::fs::create_dir_all(&dir);
             let mut invs = invocations(&dir);
             if quick {
-                let keep: Vec<Inv> = invs.iter().enumerate().filter(|(i, v)| v.expect.is_none() || i % 3 == 0 || v.name.contains("verify") || v.name.starts_with("--") || v.name.starts_with("board") || v.name.starts_with("literal") || v.name.starts_with("argument")).map(|(_, v)| v.clone()).collect();
+                let keep: Vec<Inv> = invs.iter().enumerate().filter(|(i, v)| v.expect.is_none() || i % 3 == 0 || v.name.contains("verify") || v.name.starts_with("--") || v.name.starts_with("board") || v.name.starts_with("literal") || v.name.starts_with("argument") || v.name.starts_with("verbose")).map(|(_, v)| v.clone()).collect();
                 invs = keep;
             }
             nproc = invs.len() as u64;
